@@ -600,7 +600,7 @@ def project_calls(sid, sc, evs, lines, peers):
                 lines.append(dict(ev="Call", msg="tick", account="", result="ok", peer=True, changed=False, crashed=False, **{"from": 0}))
                 continue
             frm = int(c["caller"].split("-")[1]) if c["msg"] == "contribute" and c["caller"].startswith("signer-") and c["caller"].split("-")[1].isdigit() else 0
-            lines.append(dict(ev="Call", msg=e["msg"], account=e["account"], result="ok" if e["result"] == "ok" else ("hung" if e["result"] == "hung" else "refused"), peer=c["caller"] in peers, changed=bool(e["changed"]),
+            lines.append(dict(ev="Call", msg="oddprepare" if c.get("odd") else e["msg"], account=e["account"], result="ok" if e["result"] == "ok" else ("hung" if e["result"] == "hung" else "refused"), peer=c["caller"] in peers, changed=bool(e["changed"]),
                               crashed=bool(e["crashed"]), caller=c["caller"], **{"from": frm}))
 
 
@@ -646,12 +646,37 @@ def run_c17(tier, seed, wd, info, verdict, with_nonpeers=False):
             follow.append(dict(m="execute", a=a, **{"from": 0}))
         calls += [call_of(m, TICK) for m in follow]
         scs.append(dict(id="C17-%d" % k, ids=[1, 2, 3], n=3, t=2, initiator=3, account="DW/s1", generate=False, calls=calls, timeout_ms=TIMEOUT))
+    # PREPARES THE INSTANCE MAY NOT BE ABLE TO ACT ON (threshold 0 - the value of an absent field; a participant list that does not
+    # include the receiving instance; a threshold above the number of participants): accepted or refused, the answer must be the truth -
+    # a refused prepare starts nothing (a following abort / execute is refused, a following valid prepare is accepted), an accepted
+    # one starts a generation, and one that meets an active generation is refused and leaves it intact
+    def odd(kind, a):
+        c = call_of(dict(m="prepare", a=a, **{"from": 0}), TICK)
+        c["odd"] = True
+        if kind == "t0":
+            c["t"] = 0
+        elif kind == "foreign":
+            c["participants"] = [1, 2]
+        else:
+            c["t"] = 7
+        return c
+    def plain(m, a, frm=0):
+        return call_of(dict(m=m, a=a, **{"from": frm}), TICK)
+    oscs = []
+    for oi, kind in enumerate(("t0", "foreign", "t7")):
+        for si, seq in enumerate((["O", "abort", "prepare", "abort"], ["O", "execute", "prepare", "execute"], ["prepare", "O", "execute", "abort", "O", "prepare"],
+                                  ["O", "abort", "prepare", "c1", "c2", "commit"], ["O", "O", "commit", "abort", "prepare"])):
+            a_ = ("DW/s1", "DW/s2")[(oi + si) % 2]
+            calls = [odd(kind, a_) if x == "O" else (plain("contribute", a_, int(x[1])) if x in ("c1", "c2") else plain(x, a_)) for x in seq]
+            oscs.append(dict(id="C17-odd-%s-%d" % (kind, si), ids=[1, 2, 3], n=3, t=2, initiator=3, account="DW/s1", generate=False, calls=calls, timeout_ms=TIMEOUT))
+    scs += oscs
     by = run_parallel(scs, wd, "c17", workers=NCPU)
     # the same message sequences against clusters of REAL dirk binaries: every message is sent over TLS with the caller's certificate
     # to the instance's own gRPC receiver; the generation timeout comes from the binary's configuration file
     ticky = [s_ for s_ in scs if any(c_.get("msg") == "tick" for c_ in s_["calls"])]
     plain = [s_ for s_ in scs if s_ not in ticky]
     pick = (rnd.sample(ticky, min(len(ticky), 6)) + rnd.sample(plain, min(len(plain), 18))) if tier == "quick" else (ticky[:60] + rnd.sample(plain, min(len(plain), 240)))
+    pick = [s_ for s_ in pick if s_ not in oscs] + oscs[::2 if tier == "quick" else 1]
     bscs = [dict(s_, id=s_["id"] + "-bin") for s_ in pick]
     chunks = [bscs[i::8] for i in range(8) if bscs[i::8]]
     with ThreadPoolExecutor(max_workers=8) as ex:
